@@ -67,7 +67,11 @@ BadPtrs == {"/allOf/+1", "/allOf/-0", "/allOf/+0", "/allOf/01", "/allOf/00", "/a
             "/allOf/%201", "/allOf/1%20", "/allOf/0x1", "/allOf/", "/allOf", "/$defs", "/$defs/b", "/$defs/A", "/properties/q",
             "/type", "/required", "/required/0", "/minimum", "/title", "/nosuch", "/items/0", "/allOf/0/x", "/allOf/0/const",
             "allOf/0", "/AllOf/0", "/Items", "/$defs/a/", "//", "/", "/properties/p/~", "/defs/a", "/definitions/a",
-            "/allOf/0/", "/allOf/1/allOf/0"}
+            "/allOf/0/", "/allOf/1/allOf/0",
+            \* a keyword that holds one subschema, absent from the document: nothing is designated
+            "/not", "/if", "/then", "/else", "/contains", "/additionalProperties", "/propertyNames", "/unevaluatedItems",
+            "/unevaluatedProperties", "/contentSchema", "/additionalItems", "/allOf/0/not", "/$defs/a/if", "/properties/p/items",
+            "/items/not", "/items/items"}
 GoodRaw == {<<"/allOf/0", 1>>, <<"/allOf/1", 2>>, <<"/$defs/a", 3>>, <<"/items", 4>>, <<"/properties/p", 5>>, <<"", 0>>}
 BadCases == {[u |-> Doc1(BadDoc @@ [properties |-> [p |-> TN(5), r |-> [ref |-> Ref(EmptyURI, [k |-> "raw", s |-> p])]]]), kw |-> "bad", raw |-> p, want |-> 99] : p \in BadPtrs}
             \cup {[u |-> Doc1(BadDoc @@ [properties |-> [p |-> TN(5), r |-> [ref |-> Ref(EmptyURI, [k |-> "raw", s |-> g[1]])]]]), kw |-> "good", raw |-> g[1], want |-> g[2]] : g \in GoodRaw}
